@@ -11,6 +11,8 @@
 //	mid  salts of the -wal header after that record was handled, i.e. after
 //	     an injected commit at that record and before the read lock is
 //	     re-acquired; nothing else runs until db.go reads the header again  (= mid)
+//	post salts of the -wal header at the trace point pt.ckpt.bump, i.e. after the
+//	     copy that follows a FULL/RESTART checkpoint and before the bump     (= the re-read after that copy)
 //	oth  salts of the -wal header after the call                        (= other)
 //	c    1 iff a "sync" record appears between the "checkpoint" record and the
 //	     trace point pt.ckpt.bump (the copy after a FULL/RESTART checkpoint)
@@ -19,7 +21,7 @@
 //	     2: one with reason "checkpoint boundary snapshot"
 //	     1: any other (re-copy through verify)
 //
-// The case is `machine_ck [mode hdr1 hdr2 mid1 mid2 oth1 oth2 pre wn] -> [d c]`.
+// The case is `machine_ck [mode hdr1 hdr2 mid1 mid2 post1 post2 oth1 oth2 pre wn] -> [d c]`.
 //
 // Wiring (two lines in main.go):
 //
@@ -50,6 +52,7 @@ type ckObserver struct {
 	wn       int64
 	pre      int64
 	mid      [2]uint32
+	post     [2]uint32
 	bumped   bool // pt.ckpt.bump has fired
 	posts    int  // "sync" records after the PRAGMA and before the bump
 	syncs    int  // "sync" records after the bump
@@ -173,11 +176,15 @@ func (w *World) observeCheckpoint(rc *Recorder, mode string, f func() error) {
 	ckObs = o
 	prev := litestream.VerifTracePoint // script mode's INJP uses the hook too: chain
 	litestream.VerifTracePoint = func(obj any, ev string) {
-		if ev == "pt.ckpt.bump" {
+		if ev == "pt.ckpt.bump" && !o.bumped {
 			o.bumped = true
+			o.post, _ = walSalts(w.dbPath + "-wal") // before any injection armed for this point
 		}
 		if prev != nil {
 			prev(obj, ev)
+		}
+		if ev == "pt.ckpt.bump" {
+			o.traceLen = len(w.trace) // injections up to and including this point precede db.go's read of `other`
 		}
 	}
 	err := f()
@@ -186,7 +193,7 @@ func (w *World) observeCheckpoint(rc *Recorder, mode string, f func() error) {
 	if err != nil || !o.sawCkpt || !o.bumped || o.bad {
 		return
 	}
-	// an injection after the PRAGMA's record may change the header between db.go's last read and ours
+	// an injection after the bump may change the header between db.go's last read and ours
 	injAfter := 0
 	for i, t := range w.trace {
 		if i >= o.traceLen && strings.HasPrefix(t, "INJ") {
@@ -204,13 +211,16 @@ func (w *World) observeCheckpoint(rc *Recorder, mode string, f func() error) {
 		d = 2
 	}
 	in := L(I(ckModeCode(mode)), U(uint64(hdr[0])), U(uint64(hdr[1])), U(uint64(o.mid[0])), U(uint64(o.mid[1])),
-		U(uint64(oth[0])), U(uint64(oth[1])), I(o.pre), I(o.wn))
+		U(uint64(o.post[0])), U(uint64(o.post[1])), U(uint64(oth[0])), U(uint64(oth[1])), I(o.pre), I(o.wn))
 	cls := "machine-ck/" + mode + "/" + []string{"unchanged", "recopy", "boundary"}[d]
 	if hdr != o.mid && mode != "TRUNCATE" {
 		cls += "/restarted-before-pragma-returned"
 	}
 	if o.posts > 0 {
 		cls += "/post-copy"
+		if o.post != o.mid {
+			cls += "/restarted-during-post-copy"
+		}
 	}
 	rc.cw.Add("machine_ck", in, L(I(d), B(o.posts > 0)), cls, d != 0)
 }
